@@ -1,3 +1,4 @@
+mod bigcap;
 mod comps;
 mod drive;
 mod exec;
@@ -54,6 +55,9 @@ fn main() {
             hh.max_dump = 64;
             hh.decl();
             exec::run(&mut hh, &input);
+        }
+        "bigcap" => {
+            bigcap::run(&mut hh.out, args.iter().any(|a| a == "--thorough"));
         }
         "handles" => {
             let input: String = arg(&args, "--in", String::new());
